@@ -149,9 +149,10 @@ def c11(run):
         ("g_tag", dict(names="Names2", sal="Sal2", beh="Beh3", tag=True,
                        methods=["ExecuteWithStopTagDirect", "ExecuteMixModelWithStopTagDirect"])),
     ]
-    mc = [("mc_result", dict(names="Names2", sal="Sal2", dags="Dags22", nm="NMq",
+    mc = [("mc_result", dict(names=T(run, "Names2", "Names3"), sal="Sal2", dags="Dags22", nm="NMq",
                              methods=["Execute", "ExecuteConcurrent", "ExecuteMixModel", "ExecuteInverseMixModel",
-                                      "ExecuteNSortMConcurrent", "ExecuteDAGModel"]))]
+                                      "ExecuteNSortMConcurrent", "ExecuteDAGModel"])),
+          ("mc_result3", dict(names="Names3", sal="Sal2", methods=["Execute", "ExecuteConcurrent", "ExecuteMixModel"]))]
     def burst_sessions(rng):
         """Many rules returning at the same moment (exit-burst steering): concurrent writers of the result map."""
         out = []
